@@ -6,6 +6,12 @@ Three families (DESIGN.md §4 C04):
              (vp/refs/integrity_ref.py, vp/refs/gf2.py).  Exhaustive for SlotType / EMB field combinations, Hypothesis for
              the CRC-protected PDUs and HRNP.
 (b) words_*  ALL 2^20 slot-type words and ALL 2^16 EMB words: indicator == membership in the reference code.
+    history  / history_words: the same three statements over short *histories* (see the section "histories"): valid, corrupted,
+             valid again; the corrupted one first; every check bit right after the valid parse; runs of failures; refused calls;
+             repr; the sibling parser of the same length; the check engines called directly with every mask; a rebuild; near-twin
+             and same-check-value PDUs; PDUs of another kind in between; sibling block codes (Hamming ...) on the same word before
+             the small FEC words are parsed or built.  rt_small and words_* judge every codeword (and every 251st word) a first
+             time right after the word went through the sibling block codes, in worker processes of their own.
 (c) fault_*  library-serialised PDU xor error pattern from the code's *guaranteed* detection set (derived from the
              generator polynomial: order of x, (x+1) factor, bursts <= check width *in code-word order*, mapped to
              wire positions through the PDU layout)  =>  parse raises, or indicator False, or every interpreted field
@@ -41,6 +47,17 @@ RULE = (
     "rate blocks and PI header with constant fill, repeated record, identical halves); non-trivial = check "
     "value neither 0 nor all-ones, or a directed extreme-value PDU; distinct by hash of the field values.  "
     "(b) words_*: complete enumeration of the 2^20 / 2^16 received words; every word is a distinct case.  "
+    "history: per PDU kind, seeded random and extreme-check-value PDUs x deterministic histories (valid / corrupted inside the "
+    "guaranteed set / valid again, corrupted first, every check bit after and before the valid parse, runs of 10 / 17 / 33 "
+    "failures, refused calls, repr, sibling parsers of the same length, direct calls of the check engines with every mask, "
+    "rebuilds, one bit of every message octet, near-twin PDU, a different message solved to the same check value, another PDU of "
+    "the same kind, one PDU of every other kind) plus Hypothesis-drawn histories of 2..10 steps; each parse judged by (a) / (c), "
+    "a repeated input repeats its verdict, kept objects keep indicator and fields; distinct by hash, all non-trivial.  "
+    "history_words: per code, seeded codewords x (codeword, each neighbour, codeword again; neighbours first; same parity field; "
+    "one data bit away; runs of failures), and - sibling block codes of the fec package called on the word first / in between - "
+    "every codeword, codewords of every sibling code fitted to the length, neighbours, seeded random words.  rt_small / words_*: "
+    "a first pass in separate worker processes judges every field combination / every codeword and every 251st word right after "
+    "the word went through every sibling block code.  "
     "(c) fault_*: per PDU kind, seeded random PDUs plus PDUs *constructed* (window of check-width message bits solved on "
     "the reference) to carry a check value of weight 1..2; per PDU the error patterns of the code's guaranteed detection "
     "set: all patterns of weight <= t (t=3 CRC-CCITT and CRC-8, t=2 CRC-9, t=1 HRNP; weight 3 is sampled in the quick "
@@ -350,9 +367,18 @@ def dump(o, _depth=0):
 
 
 def oracle_rt_small(case):
-    """case = {pdu:'slot_type', cc, dt} | {pdu:'emb', cc, pi, lcss}: constructor generates the parity; the serialised
-    word is a reference codeword carrying the given fields; the parsed word reports parity ok and the same fields."""
+    """case = {pdu:'slot_type', cc, dt} | {pdu:'emb', cc, pi, lcss} (+ sib: true): constructor generates the parity; the serialised
+    word is a reference codeword carrying the given fields; the parsed word reports parity ok and the same fields.  With
+    `sib` the codeword first goes through every sibling block code of the package (a case judged before its plain twin)."""
     L = _lib()
+    if case.get("sib"):
+        # the word these fields serialise to (reference code) goes through every sibling block code of the package first
+        if case["pdu"] == "slot_type":
+            sibling_code_calls(gf2.bits_to_int(gf2.ref_encode("golay_20_8_7", gf2.int_to_bits(case["cc"], 4) + gf2.int_to_bits(case["dt"], 4))), 20)
+            if case["dt"] > 12:
+                sibling_code_calls(gf2.bits_to_int(gf2.ref_encode("golay_20_8_7", gf2.int_to_bits(case["cc"], 4) + gf2.int_to_bits(12, 4))), 20)
+        else:
+            sibling_code_calls(gf2.bits_to_int(gf2.ref_encode("qr_16_7_6", gf2.int_to_bits(case["cc"], 4) + [case["pi"]] + gf2.int_to_bits(case["lcss"], 2))), 16)
     if case["pdu"] == "slot_type":
         st, o = call(L.SlotType, case["cc"], case["dt"])
         bits = bitarray(call(o.as_bits)[1].tolist())
@@ -426,9 +452,12 @@ def refset(code):
 
 
 def oracle_word(case):
-    """case = {code: 'slot_type'|'emb', word}: indicator == (word in reference code)."""
+    """case = {code: 'slot_type'|'emb', word} (+ sib: true): indicator == (word in reference code).  With `sib` the word goes
+    through every sibling block code of the package first (judged before the plain case of the same word)."""
     L = _lib()
     w = case["word"]
+    if case.get("sib"):
+        sibling_code_calls(w, 20 if case["code"] == "slot_type" else 16)
     if case["code"] == "slot_type":
         st, p = call(L.SlotType.from_bits, int2ba(w, length=20, endian="big"))
         ok = p.fec_parity_ok
@@ -1173,18 +1202,27 @@ def _selfcheck():
 
 
 def drv_rt_small(ctx: Ctx, sub: SubCheck):
+    """two passes, each in forked workers (the parent process never touches the library's FEC code, so that no later sub-check
+    inherits a warmed-up memo): first every field combination with its codeword sent through the sibling block codes before the
+    constructor sees it, then the plain cases"""
     _selfcheck()
-    t = ctx.tally
-    for cc in range(16):
+
+    def work(item, t: Tally):
+        sib, cc = item
+        extra = {"sib": True} if sib else {}
         for dt in range(16):
-            case = {"pdu": "slot_type", "cc": cc, "dt": dt}
+            case = dict({"pdu": "slot_type", "cc": cc, "dt": dt}, **extra)
             ctx.run_case(sub.name, oracle_rt_small, case, t)
-            t.case(sub.name, nontrivial=bool(cc or dt), cls="slot_type:reserved_13_15" if dt > 12 else "slot_type")
+            t.case(sub.name, nontrivial=bool(cc or dt or sib), cls="slot_type:sibling_codes_first" if sib else ("slot_type:reserved_13_15" if dt > 12 else "slot_type"))
         for pi in range(2):
             for lcss in range(4):
-                case = {"pdu": "emb", "cc": cc, "pi": pi, "lcss": lcss}
+                case = dict({"pdu": "emb", "cc": cc, "pi": pi, "lcss": lcss}, **extra)
                 ctx.run_case(sub.name, oracle_rt_small, case, t)
-                t.case(sub.name, nontrivial=bool(cc or pi or lcss), cls="emb")
+                t.case(sub.name, nontrivial=bool(cc or pi or lcss or sib), cls="emb:sibling_codes_first" if sib else "emb")
+
+    ctx.shards(work, [(True, cc) for cc in range(16)])
+    ctx.shards(work, [(False, cc) for cc in range(16)])
+    t = ctx.tally
     t.sample(sub.name, {"pdu": "slot_type", "cc": 5, "dt": 3})
     t.sample(sub.name, {"pdu": "emb", "cc": 1, "pi": 0, "lcss": 2})
     t.exhaustive[sub.name] = True
@@ -1329,6 +1367,17 @@ def drv_words(code, nbits):
         if ctx.tier == "thorough":
             ctx.rng("order", code).shuffle(items)  # same complete space, different call order
 
+        def sib_work(it, t: Tally):
+            # first contact of the process with a word is through the sibling block codes: every codeword, every 251st word
+            lo, hi = it
+            rs = refset(code)
+            nsib = 0
+            for w in range(lo, hi):
+                if w in rs or w % 251 == 0:
+                    ctx.run_case(sub.name, oracle_word, {"code": code, "word": w, "sib": True}, t)
+                    nsib += 1
+            t.case(sub.name, nontrivial=True, cls="sibling_codes_first", n=nsib)
+
         def work(it, t: Tally):
             lo, hi = it
             rs = refset(code)
@@ -1341,6 +1390,8 @@ def drv_words(code, nbits):
             t.case(sub.name, nontrivial=True, cls="non_codeword", n=(hi - lo) - ncw)
             t.sample(sub.name, {"code": code, "word": lo + (977 * (lo >> 12)) % CH})
 
+        step = (1 << nbits) // 16
+        ctx.shards(sib_work, [(lo, lo + step) for lo in range(0, 1 << nbits, step)])  # separate workers, before the plain pass
         ctx.shards(work, items, chunksize=2)
         ctx.tally.exhaustive[sub.name] = True
 
@@ -1560,6 +1611,757 @@ def make_fault_driver(group):
     return drv
 
 
+# ====================================================================================================== histories
+# Every sub-check above judges one parse at a time, and the uncorrupted wire of a PDU is parsed once per process (before the
+# stream of its corruptions).  A verdict that depends on what was parsed *before* - a memo of verdicts keyed on the message
+# bits without the check field (or on the check value without the message), a check register left dirty by a parse that was
+# rightly refused or rightly judged invalid, a counter of consecutive failures, a parsed object whose indicator or fields are
+# rewritten when a near-twin is parsed later - is invisible to them.  `history` runs short sequences over one or two PDUs:
+# valid / corrupted (inside the guaranteed set) / valid again, the corrupted one first, every check bit in turn right after
+# the valid parse, long runs of failures, refused calls (wrong length), repr() of the objects, the same bits through the
+# sibling parser of the same length (data header <-> PI header <-> rate 1/2 block, continuation <-> last block), a rebuild,
+# and near-twin PDUs (one field changed by one; a different message solved to the SAME check value).  Each parse is judged
+# by the statement on its own ((a) uncorrupted => indicator true; (c) corrupted => error / false / same fields), a repeated
+# step must repeat its outcome, and every object kept from an earlier step must keep its indicator and field values.
+
+
+def _hist_indicator(pdu_like, obj):
+    try:
+        return indicator(pdu_like, obj)
+    except AttributeError:
+        return None
+
+
+def _norm_ind(ind):
+    return None if ind is None else bool(ind)
+
+
+def oracle_history(case):
+    """case = {pdus: [PDU description, ...], steps: [step, ...]};
+    step = {op: 'parse', p, flips: [wire positions], as?: {kind, last?}} | {op: 'refuse', p, how: 'short'|'long'|'empty'|'type'}
+         | {op: 'stim', from, flip: [wire positions]} (the bits of PDU `from` with positions flipped - the message of a PDU
+         that is built only later - through sibling parsers, own parser and check engines; unjudged)
+         | {op: 'repr', of: index of an earlier step} | {op: 'build', p} | {op: 'engines', p} (the check engines behind the indicator
+         called directly on the PDU's message: every mask, matching / mismatching / refused check values - stimulus).
+    Returns the list of outcomes (driver statistics)."""
+    pdus = case["pdus"]
+
+    class _Wires(dict):  # a PDU is built when a step needs it for the first time (a 'stim' step may come before the PDU exists)
+        def __missing__(self, p):
+            st, o = call(build, pdus[p])
+            st, w = call(serialise, pdus[p], o)
+            self[p] = w
+            return w
+
+    wires = _Wires()
+    if not any(s.get("op") == "stim" for s in case["steps"]):
+        for p in range(len(pdus)):
+            wires[p]
+    kept = []  # (step index, parser description, object, indicator at creation, dump at creation)
+    objs = {}
+    outcomes = []
+    first_outcome = {}
+    valid_dump = {}
+    pending = []  # corrupted parses accepted with indicator true: fields to be compared with the uncorrupted parse of that PDU
+
+    def inspect_kept(i):
+        for j, how, o, ind0, d0 in kept:
+            ind1 = _norm_ind(_hist_indicator(how, o))
+            if ind1 != ind0:
+                raise Fail("kept_object_indicator_unchanged", {"object_of_step": j, "indicator_now": ind1, "after_step": i}, ind0, klass=how["kind"])
+            d1 = dump(o)
+            if d1 != d0:
+                diff = field_differences(d0, d1, {"bits": [], "hex": []}, {"bits": [], "hex": []})
+                raise Fail("kept_object_fields_unchanged", {"object_of_step": j, "changed": diff[:8], "after_step": i}, "the field values it had when it was parsed", klass=how["kind"])
+
+    for i, s in enumerate(case["steps"]):
+        op = s["op"]
+        if op == "parse":
+            p = s["p"]
+            pdu = pdus[p]
+            how = s.get("as") or pdu
+            rx = wires[p].copy()
+            for f in s["flips"]:
+                rx.invert(f)
+            try:
+                obj = parse(how, rx)
+                err = None
+            except Exception as e:
+                if not lib_raised(e):
+                    raise
+                obj, err = None, e
+            if obj is None:
+                out = ("decode_error",)
+                if not s["flips"] and not s.get("as"):
+                    if err is not None:
+                        raise Fail("no_unexpected_exception", f"{type(err).__name__}: {err}", "the uncorrupted PDU parses", klass=exc_klass(err))
+                    raise Fail("parsed_not_none", None, "object", klass=pdu["kind"])
+            else:
+                ind = _hist_indicator(how, obj)
+                d = dump(obj)
+                out = ("parsed", _norm_ind(ind), json.dumps(d, sort_keys=True))
+                objs[i] = obj
+                kept.append((i, how, obj, _norm_ind(ind), d))
+                if not s.get("as"):
+                    if not s["flips"]:
+                        if not is_true(ind):
+                            raise Fail("parsed_indicator_true", {"indicator": ind, "step": i}, True, klass=pdu["kind"])
+                        valid_dump.setdefault(p, d)
+                    elif not (ind is False or ind == False):  # noqa: E712
+                        pending.append((i, p, d, rx))
+            key = json.dumps([p, s["flips"], s.get("as")], sort_keys=True)
+            if key in first_outcome and first_outcome[key][1] != out:
+                raise Fail("same_input_same_verdict", {"step": i, "outcome": out[:2], "first_step": first_outcome[key][0], "first_outcome": first_outcome[key][1][:2]},
+                           "the outcome this input had earlier in the history", klass=how["kind"])
+            first_outcome.setdefault(key, (i, out))
+            outcomes.append(out[0] if out[0] == "decode_error" else ("indicator_true" if out[1] else "indicator_false"))
+        elif op == "refuse":
+            pdu = pdus[s["p"]]
+            w = wires[s["p"]]
+            unit = 8 if pdu["kind"] == "hrnp" else 1
+            arg = {"short": w[:len(w) - unit], "long": w + bitarray("0" * unit), "empty": bitarray(), "type": None}[s["how"]]
+            try:
+                if arg is None:
+                    (_lib().HRNP.from_bytes if pdu["kind"] == "hrnp" else type(build(pdu)).from_bits)(None)
+                else:
+                    parse(pdu, arg)
+            except Exception:
+                pass  # whatever a call outside the domain does is not this property's subject; what it leaves behind is
+            outcomes.append("refused_call")
+        elif op == "repr":
+            o = objs.get(s["of"])
+            if o is not None:
+                try:
+                    repr(o)
+                    str(o)
+                except Exception:
+                    pass
+            outcomes.append("repr")
+        elif op == "engines":
+            try:
+                _op_engines({"pdu": pdus[s["p"]]}, wires[s["p"]])
+            except Exception:
+                pass
+            outcomes.append("engines")
+        elif op == "stim":
+            # the bits of PDU `from` with some positions flipped (the message of a PDU that was not built yet: the check field is
+            # stale) through the sibling parsers of that length, the PDU's own parser and the check engines - stimulus only
+            rx = wires[s["from"]].copy()
+            for f in s["flip"]:
+                rx.invert(f)
+            like = pdus[s["from"]]
+            try:
+                _op_engines({"pdu": like}, rx)  # (every other mask before the PDU's own)
+            except Exception:
+                pass
+            for how in _siblings(like) + [like]:
+                try:
+                    repr(parse(how, rx.copy()))
+                except Exception:
+                    pass
+            outcomes.append("stimulus_before_build")
+        elif op == "build":
+            p = s["p"]
+            st, o = call(build, pdus[p])
+            st, w = call(serialise, pdus[p], o)
+            if w != wires[p]:
+                raise Fail("same_fields_same_wire", {"step": i, "differing_positions": [q for q in range(min(len(w), len(wires[p]))) if w[q] != wires[p][q]][:24], "len": [len(w), len(wires[p])]},
+                           "the serialisation these fields gave at the start of the history", klass=pdus[p]["kind"])
+            outcomes.append("build")
+        else:
+            raise HarnessError(f"unknown history step {op}")
+        inspect_kept(i)
+    for i, p, d1, rx in pending:
+        if p not in valid_dump:
+            st, o = call(parse, pdus[p], wires[p].copy())
+            if o is None or not is_true(indicator(pdus[p], o)):
+                raise Fail("parsed_indicator_true", {"indicator": None if o is None else indicator(pdus[p], o), "step": "final"}, True, klass=pdus[p]["kind"])
+            valid_dump[p] = dump(o)
+        d0 = valid_dump[p]
+        if d1 != d0:
+            diff = field_differences(d0, d1, parse_inputs(pdus[p], wires[p]), parse_inputs(pdus[p], rx), notes=FAULT_NOTES)
+            if diff:
+                raise Fail("corruption_detected_or_harmless", {"step": i, "indicator": True, "changed_fields": diff[:12], "flips": case["steps"][i]["flips"]},
+                           "decode error, indicator False, or all interpreted fields equal to the uncorrupted PDU", klass=pdus[p]["kind"])
+    # the check field of every wire still equals the reference (the histories start from library-built PDUs)
+    for p, w in ((pdus[i], wires[i]) for i in sorted(wires)):
+        pos = check_field_positions(p, len(w))
+        if [w[q] for q in pos] != reference_check_bits(p, w):
+            raise Fail("check_value_equals_reference", "".join(str(w[q]) for q in pos), "".join(map(str, reference_check_bits(p, w))), klass=p["kind"])
+    return outcomes
+
+
+SIBLING_PARSERS = {
+    # same number of bits, another parser (another data-type mask / another layout): stimulus between two judged parses
+    "dh": [{"kind": "pi_header"}, {"kind": "r12", "last": False}, {"kind": "r12", "last": True}],
+    "pi_header": [{"kind": "dh_confirmed"}, {"kind": "r12", "last": False}, {"kind": "r12", "last": True}],
+    "r12": [{"kind": "dh_confirmed"}, {"kind": "pi_header"}],
+}
+
+
+def _siblings(pdu):
+    k = pdu["kind"]
+    out = []
+    if k in RATE_KINDS:
+        out.append({"kind": k, "last": not pdu["last"]})
+        out += SIBLING_PARSERS.get(k, [])
+    elif k.startswith("dh_"):
+        out += SIBLING_PARSERS["dh"]
+    elif k == "pi_header":
+        out += SIBLING_PARSERS["pi_header"]
+    return out
+
+
+def _near_twin(pdu, rng):
+    """the same PDU with one field changed by one unit (another message, in general another check value)"""
+    q = dict(pdu)
+    k = pdu["kind"]
+    if k.startswith("dh_"):
+        q[rng.choice(["src", "dst"])] ^= 1 << rng.randrange(24)
+    elif k in RATE_KINDS or k == "pi_header":
+        d = bytearray(bytes.fromhex(pdu["data"]))
+        d[rng.randrange(len(d))] ^= 1 << rng.randrange(8)
+        q["data"] = bytes(d).hex()
+    elif k == "short_lc_activity":
+        q[rng.choice(["ad1", "ad2"])] ^= 1 << rng.randrange(8)
+    elif k == "hrnp":
+        q["pn"] ^= 1 << rng.randrange(16)
+    else:
+        return None
+    return q
+
+
+def _near_twin_at(pdu, rng):
+    """(near-twin, wire position of the one message bit in which its serialisation differs) - layouts of TS 102 361-1 9.2.x /
+    the HRNP header; None where no such field exists"""
+    k = pdu["kind"]
+    q = dict(pdu)
+    if k.startswith("dh_"):
+        f = rng.choice(["src", "dst"])
+        j = rng.randrange(24)
+        q[f] ^= 1 << j
+        return q, (40 if f == "src" else 16) + 23 - j
+    if k in RATE_KINDS or k == "pi_header":
+        d = bytearray(bytes.fromhex(pdu["data"]))
+        i, b = rng.randrange(len(d)), rng.randrange(8)
+        d[i] ^= 1 << b
+        q["data"] = bytes(d).hex()
+        return q, (16 if k in RATE_KINDS else 0) + 8 * i + 7 - b
+    if k == "short_lc_activity":
+        f = rng.choice(["ad1", "ad2"])
+        b = rng.randrange(8)
+        q[f] ^= 1 << b
+        return q, (12 if f == "ad1" else 20) + 7 - b
+    if k == "hrnp":
+        j = rng.randrange(16)
+        q["pn"] ^= 1 << j
+        return q, 48 + 15 - j
+    return None
+
+
+def _same_check_twin(pdu, rng):
+    """another message of the same kind whose check field on the wire reads the same value (window solved on the reference)"""
+    k = pdu["kind"]
+    if k == "short_lc_null":
+        return None
+    try:
+        w = serialise(pdu, build(pdu))
+        target = gf2.bits_to_int([w[q] for q in check_field_positions(pdu, len(w))])
+        if k == "hrnp":
+            q = dict(pdu, block=pdu["block"] ^ (1 + rng.randrange(255)))
+            return q if solve_hrnp_checksum(q, target) and q != pdu else None
+        # the change lies outside the window of message bits that is then solved for the wanted check value
+        if k.startswith("dh_"):
+            q = dict(pdu, dst=pdu["dst"] ^ (1 << rng.randrange(24)))  # window: src bits 48..63
+        elif k == "short_lc_activity":
+            q = dict(pdu, ad1=pdu["ad1"] ^ (1 << rng.randrange(8)))  # window: ad2
+        else:
+            d = bytearray(bytes.fromhex(pdu["data"]))
+            i = rng.randrange(8) if k == "pi_header" else 2 + rng.randrange(len(d) - 2)  # window: octets 8..9 / octets 0..1
+            d[i] ^= 1 << rng.randrange(8)
+            q = dict(pdu, data=bytes(d).hex())
+        return q if solve_check_value(q, target) and q != pdu else None
+    except Exception:
+        return None
+
+
+def history_shapes(pdu, n, rng, pool=None, others=None):
+    """Deterministic histories around one PDU (labelled).  Flips stay inside the code's guaranteed set: weight <= 2 for the CRC
+    kinds, weight 1 outside the length field for HRNP."""
+    k = pdu["kind"]
+    chk = check_field_positions(pdu, n)
+    msg = [q for q in range(n) if q not in set(chk) and not (k == "hrnp" and 64 <= q < 80)]
+    c1, c1b = [rng.choice(chk)], [rng.choice(chk)]
+    m1, m1b = [rng.choice(msg)], [rng.choice(msg)]
+    two = k != "hrnp"
+    c2 = sorted(rng.sample(chk, 2)) if two else [rng.choice(chk)]
+    mc = sorted([rng.choice(msg), rng.choice(chk)]) if two else [rng.choice(msg)]
+
+    def P(flips=(), p=0, as_=None):
+        s = {"op": "parse", "p": p, "flips": list(flips)}
+        if as_ is not None:
+            s["as"] = as_
+        return s
+
+    V = P()
+    out = []
+
+    def add(label, steps, pdus=None):
+        out.append((label, {"pdus": pdus or [pdu], "steps": steps}))
+
+    add("valid_corrupt_valid", [V, P(c1), V, P(c1), P(m1), V, P(mc), V, P(c2), V])
+    add("corrupt_first", [P(c1), V, P(c1), V])
+    add("corrupt_message_first", [P(m1), V, P(m1), P(mc), V])
+    steps = [V]
+    for q in chk:
+        steps += [P([q]), V]
+    add("every_check_bit_after_valid", steps)
+    steps = []
+    for q in chk:
+        steps += [P([q])]
+    add("every_check_bit_before_valid", steps + [V] + steps[:3])
+    for run in (10, 17, 33):
+        steps = [V] + [P([rng.choice(msg if j % 2 else chk)]) for j in range(run)] + [V, P(c1b), V]
+        add(f"run_of_{run}_failures_then_valid", steps)
+    add("refused_then_valid", [V, {"op": "refuse", "p": 0, "how": "short"}, V, {"op": "refuse", "p": 0, "how": "long"}, P(c1), {"op": "refuse", "p": 0, "how": "empty"}, V,
+                               {"op": "refuse", "p": 0, "how": "type"}, P(m1), V])
+    add("refused_first", [{"op": "refuse", "p": 0, "how": "short"}, V, P(c1)])
+    add("repr_between", [V, {"op": "repr", "of": 0}, P(c1), {"op": "repr", "of": 2}, V, P(m1b), {"op": "repr", "of": 5}, {"op": "repr", "of": 0}, V])
+    E = {"op": "engines", "p": 0}
+    add("engines_first", [E, V, P(c1), V, P(m1)])
+    add("engines_between", [V, E, P(c1), E, V, P(m1), E, P(mc), V])
+    add("build_between", [V, {"op": "build", "p": 0}, P(c1), {"op": "build", "p": 0}, V, P(m1), {"op": "build", "p": 0}, V])
+    for sib in _siblings(pdu):
+        lab = "sibling_parser:" + sib["kind"].split("_")[0] + (":last" if sib.get("last") else "")
+        add(lab, [V, P((), 0, sib), V, P(c1), P(c1, 0, sib), V, P(m1, 0, sib), P(m1), V])
+        add(lab + ":first", [P((), 0, sib), V, P(c1)])
+    tw = _near_twin(pdu, rng)
+    if tw is not None:
+        add("near_twin", [V, P((), 1), V, P(c1), P(c1, 1), P((), 1), V, P(m1, 1), V, P((), 1)], [pdu, tw])
+        add("near_twin_corrupt_first", [P(c1, 1), V, P((), 1), P(c1)], [pdu, tw])
+    # the message bits of a PDU reach the sibling parsers and the check engines BEFORE the library builds that PDU: a fresh PDU
+    # F that this process has never built, its message derived from its near-twin T (built first) by flipping the one wire bit
+    # in which they differ - first contact of every memo with F's message is a sibling's
+    fresh = None if k == "short_lc_null" else (gen_pdu(rng, k, pool, last=pdu["last"]) if k in RATE_KINDS else gen_pdu(rng, k, pool))
+    twq = _near_twin_at(fresh, rng) if fresh is not None else None
+    if twq is not None:
+        tw, q = twq
+        n2 = expected_wire_bits(fresh) or len(serialise(tw, build(tw)))
+        chk2 = check_field_positions(fresh, n2)
+        msg2 = [x for x in range(n2) if x not in set(chk2) and not (k == "hrnp" and 64 <= x < 80)]
+        f1, g1 = [rng.choice(chk2)], [rng.choice(msg2)]
+        S = {"op": "stim", "from": 1, "flip": [q]}
+        add("siblings_and_engines_before_build", [S, V, P(f1), V, P(g1), S, V], [fresh, tw])
+    tw = _same_check_twin(pdu, rng)
+    if tw is not None:
+        add("same_check_value_twin", [V, P((), 1), V, P(m1), P(m1, 1), P((), 1), V, P(c1, 1), P(c1), V, P((), 1)], [pdu, tw])
+    # one bit of every message octet in turn, each followed by the uncorrupted PDU (HRNP: corruptions that make the parser of
+    # the inner layer fail, change the opcode, the version, the terminator ...)
+    steps = []
+    for q0 in range(0, n, 8):
+        cand = [q for q in range(q0, min(q0 + 8, n)) if q in set(msg)]
+        if cand:
+            steps += [P([rng.choice(cand)]), V]
+    add("each_message_octet_then_valid", steps)
+    for lab, other in (others or []):
+        n2 = expected_wire_bits(other) or len(serialise(other, build(other)))
+        chk2 = check_field_positions(other, n2)
+        o1 = [rng.choice(chk2)]
+        B = {"op": "build", "p": 1}
+        add(lab, [V, P((), 1), V, P(o1, 1), V, P(c1), P((), 1), B, P(m1), V, B, P(c1), P(o1, 1), V, P((), 1)], [pdu, other])
+        add(lab + ":other_first", [P(o1, 1), V, B, P(c1), P((), 1)], [pdu, other])
+    return out
+
+
+def drv_history(ctx: Ctx, sub: SubCheck):
+    from hypothesis import strategies as st
+
+    _selfcheck()
+    pool, hist, excluded = hdap_pool(ctx.rng("hdap_pool"), ctx.pick(120, 400))
+    per = ctx.pick(2, 8)
+    items = []
+    ext = extreme_pdus(ctx, ALL_KINDS, pool)
+    for kind in ALL_KINDS:
+        rng = ctx.rng("history_pdus", kind)
+        pdus = []
+        for i in range(per if kind != "short_lc_null" else 1):
+            pdus.append(("random", gen_pdu(rng, kind, pool, last=bool(i % 2)) if kind in RATE_KINDS else gen_pdu(rng, kind, pool)))
+        for lab in ("all_zero", "all_ones"):
+            pdus += [("extreme_check_value:" + lab, p) for k2, l2, tg, p in ext if k2 == kind and l2 == lab][:1]
+        for j, (pcls, pdu) in enumerate(pdus):
+            items.append((kind, pcls, pdu, j))
+
+    def work(it, t: Tally):
+        kind, pcls, pdu, j = it
+        n = expected_wire_bits(pdu)
+        if n is None:
+            n = len(serialise(pdu, build(pdu)))
+        # partners: another PDU of the same kind (HRNP: another payload length; rate blocks: the other block type) and, for the
+        # first PDU of the kind, one PDU of every other kind (an unrelated family between two parses: shared check engines)
+        rng2 = ctx.rng("history_partners", kind, j)
+        others = [("other_pdu_same_kind", gen_pdu(rng2, kind, pool, last=not pdu["last"]) if kind in RATE_KINDS else gen_pdu(rng2, kind, pool))] if kind != "short_lc_null" else []
+        if j == 0:
+            others += [(f"other_kind:{k2}", gen_pdu(rng2, k2, pool)) for k2 in ALL_KINDS if k2 != kind]
+        for label, case in history_shapes(pdu, n, ctx.rng("history_shapes", kind, j), pool, others):
+            outs, ok = _run(ctx, sub.name, oracle_history, case, t)
+            t.case(sub.name, key=case, nontrivial=True, cls=f"{label}")
+            t.cls(sub.name, f"kind:{kind}")
+            t.cls(sub.name, f"pdu_class:{pcls}")
+            for o in outs or []:
+                t.cls(sub.name, f"step_outcome:{o}")
+        t.sample(sub.name, case)
+
+    ctx.shards(work, items)
+
+    # sampled histories: 2..10 steps over one PDU and (half of the time) a near-twin of it
+    def strategy(kind):
+        def steps_for(pdu):
+            n = expected_wire_bits(pdu) or len(serialise(pdu, build(pdu)))
+            chk = check_field_positions(pdu, n)
+            msg = [q for q in range(n) if q not in set(chk) and not (kind == "hrnp" and 64 <= q < 80)]
+            one = st.one_of(st.sampled_from(chk), st.sampled_from(msg)).map(lambda q: [q])
+            flips = one if kind == "hrnp" else st.one_of(one, one, st.lists(st.one_of(st.sampled_from(chk), st.sampled_from(msg)), min_size=2, max_size=2, unique=True).map(sorted))
+            sibs = _siblings(pdu)
+            tw = _near_twin(pdu, ctx.rng("history_twin", json.dumps(pdu, sort_keys=True)))
+            pidx = st.sampled_from([0, 0, 1]) if tw is not None else st.just(0)
+            parse_ = st.fixed_dictionaries({"op": st.just("parse"), "p": pidx, "flips": st.one_of(st.just([]), flips)})
+            alts = [parse_, parse_, parse_, st.fixed_dictionaries({"op": st.just("refuse"), "p": st.just(0), "how": st.sampled_from(["short", "long", "empty", "type"])}),
+                    st.fixed_dictionaries({"op": st.just("repr"), "of": st.integers(0, 9)}), st.fixed_dictionaries({"op": st.just("build"), "p": pidx}),
+                    st.fixed_dictionaries({"op": st.just("engines"), "p": pidx})]
+            if sibs:
+                alts.append(st.fixed_dictionaries({"op": st.just("parse"), "p": pidx, "flips": st.one_of(st.just([]), flips), "as": st.sampled_from(sibs)}))
+            return st.lists(st.one_of(alts), min_size=2, max_size=10).map(lambda s: {"pdus": [pdu] + ([tw] if tw is not None else []), "steps": s})
+
+        return _pdu_strategy(kind, pool).flatmap(steps_for)
+
+    def hyp(kind, t: Tally):
+        def oracle(case):
+            oracle_history(case)
+
+        ctx.hypothesis(sub.name, strategy(kind), oracle, ctx.pick(40, 600), tally=t, shard=kind,
+                       record=lambda c, tt: tt.case(sub.name, key=c, nontrivial=sum(1 for s in c["steps"] if s["op"] == "parse") >= 2, cls=f"sampled:{kind}"))
+
+    ctx.shards(hyp, [k for k in ALL_KINDS if k != "short_lc_null"])
+
+
+_BLOCK_CODES = None
+
+
+def block_codes():
+    """[(class, n, k)] of every block code class of okdmr.dmrlib.etsi.fec (found by introspection: a k x n GENERATOR_MATRIX and
+    a check method) - the sibling codes of Golay(20,8,7) and QR(16,7,6), which share helper functions with them"""
+    global _BLOCK_CODES
+    if _BLOCK_CODES is None:
+        import importlib
+        import pkgutil
+
+        import okdmr.dmrlib.etsi.fec as pkg
+
+        found = []
+        for m in sorted(pkgutil.iter_modules(pkg.__path__), key=lambda m: m.name):
+            try:
+                mod = importlib.import_module(f"{pkg.__name__}.{m.name}")
+            except Exception:
+                continue
+            for name in sorted(vars(mod)):
+                c = vars(mod)[name]
+                g = getattr(c, "GENERATOR_MATRIX", None) if isinstance(c, type) and getattr(c, "__module__", None) == mod.__name__ else None
+                if g is not None and getattr(g, "ndim", 0) == 2 and callable(getattr(c, "check", None)):
+                    k, n = g.shape
+                    found.append((c, int(max(k, n)), int(min(k, n))))
+        _BLOCK_CODES = found
+    return _BLOCK_CODES
+
+
+def sibling_code_calls(w: int, n: int):
+    """The n-bit word w through every block code of the package (stimulus; results and exceptions ignored): check and
+    check_and_correct on the word fitted to the code's length (the word itself where the lengths agree; its leading / trailing
+    bits; zero-extended on either side), generate on its leading information bits."""
+    bits = format(w, f"0{n}b")
+    for c, n2, k2 in block_codes():
+        fits = [bits] if n2 == n else ([bits[:n2], bits[n - n2:]] if n2 < n else [bits + "0" * (n2 - n), "0" * (n2 - n) + bits])
+        for b in dict.fromkeys(fits):
+            for meth in ("check", "check_and_correct"):
+                fn = getattr(c, meth, None)
+                if fn is not None:
+                    try:
+                        fn(bitarray(b))
+                    except Exception:
+                        pass
+        try:
+            c.generate(bitarray(bits[:k2] if k2 <= n else bits + "0" * (k2 - n)))
+        except Exception:
+            pass
+
+
+def oracle_history_words(case):
+    """case = {code: 'slot_type'|'emb', words: [w, ...], sib?: 'before'|'after'}: every word is parsed in turn, its indicator
+    equals membership in the reference code; every object parsed earlier keeps its indicator and its fields; a word that occurs
+    again gets the verdict it got before.  sib = 'before': right before a word is parsed (for the first time in this case) it
+    goes through every sibling block code of the package; a codeword is then also built from its fields (constructor path:
+    generated parity is the reference codeword, indicator true).  sib = 'after': parse, sibling codes, parse again."""
+    L = _lib()
+    code = case["code"]
+    n = 20 if code == "slot_type" else 16
+    cls = L.SlotType if code == "slot_type" else L.EmbeddedSignalling
+    attr = "fec_parity_ok" if code == "slot_type" else "emb_parity_ok"
+    kept = []
+    sib = case.get("sib")
+    words = case["words"]
+    if sib == "after":
+        words = [x for w in words for x in (w, ("sib", w), w)]
+    elif sib == "before":
+        words = [x for w in words for x in (("sib", w), w, ("build", w))]
+    for i, w in enumerate(words):
+        if isinstance(w, tuple):
+            if w[0] == "sib":
+                sibling_code_calls(w[1], n)
+            elif w[1] in refset(code):
+                if code == "slot_type":
+                    oracle_rt_small({"pdu": "slot_type", "cc": w[1] >> 16, "dt": (w[1] >> 12) & 15})
+                else:
+                    oracle_rt_small({"pdu": "emb", "cc": w[1] >> 12, "pi": (w[1] >> 11) & 1, "lcss": (w[1] >> 9) & 3})
+            continue
+        st, p = call(cls.from_bits, int2ba(w, length=n, endian="big"))
+        ok = getattr(p, attr)
+        exp = w in refset(code)
+        if bool(ok) != exp:
+            raise Fail("noncodeword_accepted" if ok else "codeword_rejected", {"indicator": bool(ok), "step": i, "word": w}, exp, klass=code)
+        kept.append((i, p, bool(ok), dump(p)))
+        for j, o, ok0, d0 in kept[-24:]:
+            if bool(getattr(o, attr)) != ok0:
+                raise Fail("kept_object_indicator_unchanged", {"object_of_step": j, "indicator_now": bool(getattr(o, attr)), "after_step": i}, ok0, klass=code)
+            if dump(o) != d0:
+                raise Fail("kept_object_fields_unchanged", {"object_of_step": j, "after_step": i}, "the field values it had when it was parsed", klass=code)
+    for j, o, ok0, d0 in kept:
+        if bool(getattr(o, attr)) != ok0 or dump(o) != d0:
+            raise Fail("kept_object_indicator_unchanged", {"object_of_step": j, "after_step": "all"}, ok0, klass=code)
+
+
+def drv_history_words(ctx: Ctx, sub: SubCheck):
+    """per code: for seeded codewords c - c, every word at distance one (parity bits first, then data bits), c again after each
+    of them; the non-codewords first and c last; c, a codeword with the same parity field, a codeword one data bit away; runs
+    of 10 / 17 / 33 non-codewords and then c."""
+    def work(code, t: Tally):
+        n = 20 if code == "slot_type" else 16
+        k = 8 if code == "slot_type" else 7
+        rng = ctx.rng("history_words", code)
+        cws = sorted(refset(code))
+        by_parity = {}
+        for c in cws:
+            by_parity.setdefault(c & ((1 << (n - k)) - 1), []).append(c)
+        picks = [cws[0], cws[-1]] + rng.sample(cws, ctx.pick(6, 30))
+        for c in picks:
+            near = [c ^ (1 << b) for b in range(n)]
+            cases = [("codeword_then_each_neighbour", [c] + [x for w in near for x in (w, c)]),
+                     ("neighbours_first", near + [c] + near[:3] + [c]),
+                     ("same_parity_other_data", [c] + by_parity[c & ((1 << (n - k)) - 1)] + [c]),
+                     ("data_bit_twins", [c] + [x for b in range(k) for x in ([d for d in cws if (d >> (n - k)) == ((c >> (n - k)) ^ (1 << b))] + [c])])]
+            for run in (10, 17, 33):
+                cases.append((f"run_of_{run}_failures_then_codeword", [c] + [c ^ (1 + rng.getrandbits(n - 1)) for _ in range(run)] + [c]))
+            for label, words in cases:
+                words = [w for w in words]
+                case = {"code": code, "words": words}
+                ctx.run_case(sub.name, oracle_history_words, case, t)
+                t.case(sub.name, key=case, nontrivial=True, cls=f"{code}:{label}")
+        t.sample(sub.name, case)
+        # sibling block codes on the same word first (and in between): every codeword of the code; every codeword of every
+        # sibling code fitted to this length (words another code says "valid" about); the neighbours of a few codewords; seeded
+        # random words
+        sib_words = []
+        for c, n2, k2 in block_codes():
+            for _ in range(ctx.pick(24, 200)):
+                try:
+                    g = "".join(str(int(x)) for x in c.generate(bitarray(format(rng.getrandbits(k2), f"0{k2}b"))).tolist())
+                except Exception:
+                    continue
+                sib_words.append(int((g + "0" * n)[:n], 2))
+                sib_words.append(int(("0" * n + g)[-n:], 2))
+        groups = [("every_codeword", cws), ("sibling_code_codewords", list(dict.fromkeys(sib_words))),
+                  ("codeword_neighbours", [c ^ (1 << b) for c in picks[:4] for b in range(n)]), ("random_words", [rng.getrandbits(n) for _ in range(ctx.pick(300, 3000))])]
+        for glabel, ws in groups:
+            for mode in ("before", "after"):
+                if mode == "after" and glabel != "every_codeword":
+                    continue
+                for lo in range(0, len(ws), 32):
+                    case = {"code": code, "words": ws[lo:lo + 32], "sib": mode}
+                    ctx.run_case(sub.name, oracle_history_words, case, t)
+                    t.case(sub.name, key=case, nontrivial=True, cls=f"{code}:sibling_codes_{mode}:{glabel}")
+
+    ctx.shards(work, ["slot_type", "emb"])
+
+
+# ====================================================================================================== preludes
+# (vp/core.py "Preludes"): calls derived from the case that run between two judgements of it
+
+PRELUDE_GROUPS = ("pdu", "crc", "hytera", "fec")
+
+
+def _op_parse_variants(a):
+    """a = {pdu, flips: [[positions]...]}: parse the PDU's wire uncorrupted and under each corruption; repr the results"""
+    pdu = a["pdu"]
+    w = serialise(pdu, build(pdu))
+    keep = []
+    for fl in [[]] + list(a.get("flips", [])):
+        rx = w.copy()
+        for f in fl:
+            if f < len(rx):
+                rx.invert(f)
+        try:
+            o = parse(pdu, rx)
+            keep.append(o)
+            repr(o)
+        except Exception:
+            pass
+    return keep
+
+
+def _op_siblings(a):
+    """a = {pdu}: the same bits through the sibling parsers of that length, through the byte interface, and wrong lengths"""
+    pdu = a["pdu"]
+    w = serialise(pdu, build(pdu))
+    for sib in _siblings(pdu):
+        try:
+            repr(parse(sib, w.copy()))
+        except Exception:
+            pass
+    unit = 8 if pdu["kind"] == "hrnp" else 1
+    for arg in (w[:len(w) - unit], w + bitarray("0" * unit), bitarray(), w[:len(w) // 2]):
+        try:
+            parse(pdu, arg)
+        except Exception:
+            pass
+    if pdu["kind"].startswith("dh_"):
+        try:
+            _lib().DataHeader.from_bytes(w.tobytes()).as_bytes()
+        except Exception:
+            pass
+
+
+def _op_engines(a, wire=None):
+    """a = {pdu}: the check engines behind the indicators, called directly on the PDU's message with every mask / sibling code,
+    with a matching and a mismatching check value, and with arguments they have to refuse"""
+    from okdmr.dmrlib.etsi.crc.crc8 import CRC8
+    from okdmr.dmrlib.etsi.crc.crc9 import CRC9
+    from okdmr.dmrlib.etsi.crc.crc16 import CRC16
+    from okdmr.dmrlib.etsi.layer2.elements.crc_masks import CrcMasks
+
+    pdu = a["pdu"]
+    w = serialise(pdu, build(pdu)) if wire is None else wire
+    k = pdu["kind"]
+    calls = []
+    if k.startswith("dh_") or k == "pi_header" or k == "hrnp":
+        data = w[:80].tobytes()
+        rx = ba2int(w[80:96])
+        own = {"pi_header": "PiHeader"}.get(k, "DataHeader")
+        for m in sorted(CrcMasks, key=lambda m: (m.name == own, m.name)):  # the PDU's own data-type mask last
+            calls += [lambda m=m: CRC16.calculate(data, m), lambda m=m: CRC16.check(data, rx, m), lambda m=m: CRC16.check(data, rx ^ 1, m)]
+        calls += [lambda: CRC16.check(data, 0x10000, CrcMasks.DataHeader), lambda: CRC16.check(data, -1, CrcMasks.DataHeader), lambda: CRC16.calculate(None, CrcMasks.DataHeader),
+                  lambda: CRC16.calculate(data, None)]
+    if k.startswith("short_lc"):
+        calls += [lambda: CRC8.calculate(w[:28]), lambda: CRC8.check(w[:28], ba2int(w[28:36][::-1])), lambda: CRC8.check(w[:28], ba2int(w[28:36][::-1]) ^ 1), lambda: CRC8.check(w[:28], 256),
+                  lambda: CRC8.calculate(w[:27]), lambda: CRC8.calculate(None)]
+    if k in RATE_KINDS:
+        data = w[16:].tobytes()
+        sn, rx = ba2int(w[:7]), ba2int(w[7:16][::-1])
+        own9 = {"r12": "Rate12DataContinuation", "r34": "Rate34DataContinuation", "r1": "Rate1DataContinuation"}[k]
+        for m in sorted(CrcMasks, key=lambda m: (m.name == own9, m.name)):  # the block's own mask last
+            calls += [lambda m=m: CRC9.check(data, sn, rx, m), lambda m=m: CRC9.check(data, sn, rx ^ 1, m), lambda m=m: CRC9.calculate(w[16:] + w[:7], m)]
+        calls += [lambda: CRC9.check(data, sn, 512, CrcMasks.Rate12DataContinuation), lambda: CRC9.check(data, 128, rx, CrcMasks.Rate12DataContinuation),
+                  lambda: CRC9.calculate_from_parts(data, sn, CrcMasks.Rate12DataContinuation, crc32=b"\x01"), lambda: CRC9.calculate_from_parts(None, sn, CrcMasks.Rate12DataContinuation)]
+    if k == "hrnp":
+        L = _lib()
+        raw = w.tobytes()
+
+        def verify(checked, chk):
+            return L.HRNP.from_bytes(raw).verify_checksum(checksum=chk, checked_data=checked)
+
+        calls += [lambda: verify(raw[0:10] + raw[12:], raw[10:12]), lambda: verify(raw[0:10] + raw[12:], b"\x00\x00"), lambda: verify(raw[0:10] + raw[12:-1], raw[10:12]),
+                  lambda: verify(b"", raw[10:12]), lambda: verify(None, 0), lambda: verify(raw, "x"), lambda: L.HRNP.from_bytes(raw[:11]), lambda: L.HRNP.from_bytes(raw[:-1])]
+    # every engine of the crc package (they share one calculator class) and the 5-bit checksum on the same message, whatever the kind
+    from okdmr.dmrlib.etsi.crc.crc32 import CRC32
+    from okdmr.dmrlib.etsi.fec.five_bit_checksum import FiveBitChecksum
+
+    whole, head = w.tobytes(), w[:80].tobytes()
+    calls += [lambda: CRC32.calculate(whole), lambda: CRC32.check(whole, 0), lambda: CRC32.calculate(head), lambda: CRC16.calculate(head, CrcMasks.CSBK), lambda: CRC8.calculate(w[:28]),
+              lambda: CRC9.calculate(w[16:] + w[:7], CrcMasks.Rate34DataContinuation), lambda: FiveBitChecksum.calculate(head[:9]), lambda: FiveBitChecksum.verify(head[:9], 0),
+              lambda: CRC32.check(whole, 1 << 32), lambda: CRC32.calculate(None)]
+    if k == "hrnp" and pdu.get("opcode") == "DATA":
+        L = _lib()
+        raw = w.tobytes()
+        bad = bytearray(raw[12:])
+        if bad:
+            bad[len(bad) // 2] ^= 0x10
+        calls += [lambda: repr(L.HDAP.from_bytes(raw[12:])), lambda: L.HDAP.from_bytes(bytes(bad)), lambda: L.HDAP.from_bytes(raw[12:-1]), lambda: L.HDAP.from_bytes(raw[12:13])]
+    for fn in calls:
+        try:
+            fn()
+        except Exception:
+            pass
+
+
+def _op_fec_words(a):
+    """a = {code, words: [w...]}: each word through both small FEC parsers (repr of the results), their codes, and every sibling
+    block code of the package; plus arguments the codes have to refuse"""
+    from okdmr.dmrlib.etsi.fec.golay_20_8_7 import Golay2087
+    from okdmr.dmrlib.etsi.fec.quadratic_residue_16_7_6 import QuadraticResidue1676
+
+    L = _lib()
+    n = 20 if a["code"] == "slot_type" else 16
+    for x in a["words"]:
+        sibling_code_calls(x, n)
+        for fn in (lambda: repr(L.SlotType.from_bits(int2ba(x & 0xFFFFF, length=20))), lambda: repr(L.EmbeddedSignalling.from_bits(int2ba(x & 0xFFFF, length=16))),
+                   lambda: L.SlotType.from_bits(int2ba(x & 0xFFFF, length=16)), lambda: L.EmbeddedSignalling.from_bits(int2ba(x & 0xFFFFF, length=20))):
+            try:
+                fn()
+            except Exception:
+                pass
+    for fn in (lambda: Golay2087.check(None), lambda: QuadraticResidue1676.generate(bitarray()), lambda: Golay2087.generate(bitarray("1" * 9)), lambda: QuadraticResidue1676.check(bitarray("1" * 15))):
+        try:
+            fn()
+        except Exception:
+            pass
+
+
+def _passed_words(code, w):
+    """the word itself and words an in-order enumeration has already judged (a sibling call on a word still to come would poison a
+    later case in a way the replay order 'oracle, calls, oracle' cannot reproduce; the drivers make that first contact
+    themselves: cases with sib = true)"""
+    return [w, max(0, w - 1)]
+
+
+PRELUDE_OPS = {"parse_variants": _op_parse_variants, "siblings": _op_siblings, "engines": _op_engines, "fec_words": _op_fec_words}
+
+
+def prelude_for(sub, case, rng):
+    if sub in ("words_slot_type", "words_emb"):
+        return [{"x": "fec_words", "a": {"code": case["code"], "words": _passed_words(case["code"], case["word"])}}]
+    if sub == "history_words":
+        return [{"x": "fec_words", "a": {"code": case["code"], "words": [w for w in case["words"][:16]]}}] if case.get("words") else []
+    if sub == "rt_small":
+        if case.get("pdu") == "slot_type":
+            word = gf2.bits_to_int(gf2.ref_encode("golay_20_8_7", gf2.int_to_bits(case["cc"], 4) + gf2.int_to_bits(case["dt"], 4)))
+            return [{"x": "fec_words", "a": {"code": "slot_type", "words": _passed_words("slot_type", word)}}]
+        word = gf2.bits_to_int(gf2.ref_encode("qr_16_7_6", gf2.int_to_bits(case["cc"], 4) + [case["pi"]] + gf2.int_to_bits(case["lcss"], 2)))
+        return [{"x": "fec_words", "a": {"code": "emb", "words": _passed_words("emb", word)}}]
+    if sub == "rt_pdu":
+        pdu, own = case, []
+    elif sub.startswith("fault_"):
+        pdu, own = case["pdu"], [case["flips"]]
+    elif sub == "history":
+        if not case.get("pdus"):
+            return []
+        pdu, own = case["pdus"][0], [s["flips"] for s in case["steps"] if s.get("op") == "parse" and s.get("flips")][:2]
+    else:
+        return []
+    if not isinstance(pdu, dict) or pdu.get("kind") not in ALL_KINDS:
+        return []
+    n = expected_wire_bits(pdu) or 96  # (HRNP: the 12 header octets)
+    chk = check_field_positions(pdu, n)
+    flips = own + [[rng.choice(chk)], [rng.randrange(n)], sorted({rng.choice(chk), rng.randrange(n)})]
+    return [{"x": "parse_variants", "a": {"pdu": pdu, "flips": flips}}, {"x": "siblings", "a": {"pdu": pdu}}, {"x": "engines", "a": {"pdu": pdu}}]
+
+
 SUBCHECKS = [
     SubCheck("rt_small", oracle_rt_small, drv_rt_small, "(a) all SlotType / EMB field combinations: generated parity is the reference codeword, parsed indicator True"),
     SubCheck("rt_pdu", oracle_rt_pdu, drv_rt_pdu, "(a) generated data header / PI header / short LC / CRC-9 blocks / HRNP: serialise -> parse => indicator True, check value == reference"),
@@ -1570,6 +2372,11 @@ SUBCHECKS = [
     SubCheck("fault_short_lc", oracle_fault, make_fault_driver("fault_short_lc"), "(c) short LC x guaranteed CRC-8 error patterns (code-word order mapped to the LSB-first field)"),
     SubCheck("fault_crc9_block", oracle_fault, make_fault_driver("fault_crc9_block"), "(c) confirmed rate 1/2, 3/4, 1 blocks x guaranteed CRC-9 error patterns (code-word order mapped to DBSN|CRC|data)"),
     SubCheck("fault_hrnp", oracle_fault, make_fault_driver("fault_hrnp"), "(c) HRNP datagrams x all single-bit errors and bursts <= 15 bits"),
+    SubCheck("history", oracle_history, drv_history, "(a)+(c) over histories: valid / corrupted / valid again, corrupted first, every check bit in turn, runs of failures, refused calls, repr, "
+             "sibling parsers of the same length, rebuilds, near-twin and same-check-value PDUs: every parse judged by the statement, repeated inputs repeat their verdict, kept objects keep "
+             "indicator and fields"),
+    SubCheck("history_words", oracle_history_words, drv_history_words, "(b) over histories: codeword, each neighbour, codeword again; neighbours first; same parity / one data bit away; runs of "
+             "failures: indicator == membership at every step, kept objects keep indicator and fields"),
 ]
 
 PREDICATES = {}
